@@ -366,7 +366,7 @@ struct Explorer {
 
 // replay string: <scenario>|<spurious_at>|<choices>
 inline int replay(const std::vector<Scenario>& scs, const std::string& rp) {
-    size_t a = rp.find('|'), b = rp.find('|', a + 1);
+    size_t b = rp.rfind('|'), a = rp.rfind('|', b - 1);  // the scenario name may itself contain '|' 
     std::string name = rp.substr(0, a);
     int sp = atoi(rp.substr(a + 1, b - a - 1).c_str());
     std::vector<unsigned char> ch = parse_choices(rp.substr(b + 1));
